@@ -55,4 +55,6 @@ def proposer_part(ctx, hs, which):
             ctx.divergences.append({"trace": "prop-" + name, "line": d["rec"], "handler": d["kind"]})
         if rep["ndiv"]:
             ctx.log("DIVERGENCE: %d observations of the real proposer differ from Proposer.tla (%s; first: %s)" % (rep["ndiv"], name, json.dumps(rep["div"][:2])[:600]))
-        report(ctx, rep, tpath, which + ".", "the real Proposer task (stakes %s) broke a monitor of Proposer.tla" % stakes)
+        report(ctx, rep, tpath, which + ".", "the real Proposer task (stakes %s) broke a monitor of Proposer.tla" % stakes,
+               rerun=dict(harness=["proposer", "in={in}", "out={out}", "stakes=" + ",".join(map(str, stakes))], schedules=bpath,
+                          module="TraceProposer.tla", constants=tc, invariants=["SpecInvs"]))
